@@ -178,7 +178,7 @@ func init() {
 			return s
 		},
 		Run:  c16Run,
-		Rule: "functions of p=0..3 parameters (a, b, c) whose bodies are decision chains (if (p_i == lit) { return V } …; return V) with V in {literal, empty string, p_j, p_j + \"x\"}, a side-effecting statement after every return (must not run), nested-if and let-in-body shapes; every argument tuple over {\"A\", \"B\", outer variable a (=\"B\"), outer variable b (=\"A\"), a nested call of the same function} — the outer variables are named like the parameters, so swapped arguments distinguish binding orders; result used in 12 ways (output tag, if condition incl. falsy results, !, == on either side, + on either side, let then use, argument of a recording Go helper, &&, array element, inside a for body). Plus nested calls f(f(x)), g(f(x), f(y)) re-entrancy, higher-order apply(f, x), functions stored in let / passed through a Go helper / passed as parameters, recursion (countdown, factorial, fibonacci, mutual even/odd). Compared with a reference evaluation of the decision chain. Non-trivial: p >= 1.",
+		Rule: "functions of p=0..3 parameters (a, b, c) whose bodies are decision chains (if (p_i == lit) { return V } …; return V) with V in {literal, empty string, p_j, p_j + \"x\"}, a side-effecting statement after every return (must not run), nested-if and let-in-body shapes; every argument tuple over {\"A\", \"B\", outer variable a (=\"B\"), outer variable b (=\"A\"), a nested call of the same function} — the outer variables are named like the parameters, so swapped arguments distinguish binding orders; result used in 12 ways (output tag, if condition incl. falsy results, !, == on either side, + on either side, let then use, argument of a recording Go helper, &&, array element, inside a for body). Plus nil arguments over every tuple of {nil, value, outer variables} for p<=3 (a parameter bound to nil must not fall through to a same-named caller variable), one identifier bound to different functions within a render, nested calls f(f(x)), g(f(x), f(y)) re-entrancy, higher-order apply(f, x), functions stored in let / passed through a Go helper / passed as parameters, recursion (countdown, factorial, fibonacci, mutual even/odd). Compared with a reference evaluation of the decision chain. Non-trivial: p >= 1.",
 		Bound: func(th bool) string {
 			if th {
 				return "p<=3 with chains of <=2 conditions"
@@ -309,6 +309,11 @@ func c16Special(t *engine.T) {
  return t } %><%= z() %>|<%= t %>`, "inner|outer"},
 		{"higher-order apply", `<% let f = fn(a) { return a + "x" } %><% let apply = fn(g, v) { return g(v) } %><%= apply(f, "A") %>|<%= apply(f, apply(f, b)) %>`, "Ax|Axx"},
 		{"stored in let", `<% let f = fn(a) { return a + "x" } %><% let g = f %><%= g("A") %>`, "Ax"},
+		{"apply with two different functions", `<% let f1 = fn(a) { return a + "1" } %><% let f2 = fn(a) { return a + "2" } %><% let apply = fn(g, v) { return g(v) } %><%= apply(f1, "A") %>|<%= apply(f2, "A") %>|<%= apply(f1, apply(f2, "B")) %>`, "A1|A2|B21"},
+		{"rebound function variable", `<% let h = fn(a) { return "p" + a } %><%= h("1") %><% h = fn(a) { return "q" + a } %>|<%= h("1") %><% let k = h %>|<%= k("2") %>`, "p1|q1|q2"},
+		{"parameter named like a defined function", `<% let f = fn(a) { return "outer" + a } %><% let call = fn(f, v) { return f(v) } %><% let other = fn(a) { return "param" + a } %><%= call(other, "1") %>|<%= f("2") %>|<%= call(f, "3") %>`, "param1|outer2|outer3"},
+		{"recursion with a nil accumulator", `<% let walk = fn(n, acc) { if (n == 0) { if (acc) { return "seen" } return "fresh" }
+ return walk(n - 1, nil) } %><%= walk(0, nil) %>|<%= walk(0, "x") %>|<%= walk(2, "x") %>`, "fresh|seen|fresh"},
 		{"through go helper", `<% let f = fn(a) { return a + "x" } %><% let g = idf(f) %><%= g("A") %>`, "Ax"},
 		{"function as argument to itself", `<% let twice = fn(g, v) { return g(g(v)) } %><% let f = fn(a) { return a + "y" } %><%= twice(f, "A") %>`, "Ayy"},
 		{"countdown", `<% let cd = fn(n) { if (n == 0) { return "done" }
@@ -327,6 +332,37 @@ func c16Special(t *engine.T) {
  return "out" } %><%= f("A") %>|<%= f("B") %>`, "in|out"},
 		{"int results in arithmetic", `<% let sq = fn(n) { return n * n } %><%= sq(3) + 1 %>|<%= sq(2) * sq(3) %>|<%= sq(sq(2)) %>|<%= sq(4) > 15 %>`, "10|36|16|true"},
 		{"result as index and iterable", `<% let idx = fn() { return 1 } %><% let lst = fn() { return ["p", "q"] } %><%= lst()[idx()] %>|<%= for (v) in lst() { %><%= v %><% } %>`, "q|pq"},
+	}
+	// nil arguments: a parameter bound to nil must not fall through to a same-named caller variable
+	nilArgs := []c16Arg{{"nil", ""}, {`"x"`, "x"}, {"a", "B"}, {"b", "A"}}
+	for p := 1; p <= 3; p++ {
+		var rec func(cur []c16Arg)
+		rec = func(cur []c16Arg) {
+			if len(cur) == p {
+				var as []string
+				want := "none"
+				for i := len(cur) - 1; i >= 0; i-- {
+					as = append([]string{cur[i].src}, as...)
+				}
+				for i := 0; i < len(cur); i++ {
+					if cur[i].val != "" {
+						want = c16Params[i] + "=" + cur[i].val
+						break
+					}
+				}
+				var body strings.Builder
+				for i := 0; i < p; i++ {
+					fmt.Fprintf(&body, "if (%s) { return %q + %s }\n", c16Params[i], c16Params[i]+"=", c16Params[i])
+				}
+				src := `<% let f = fn(` + strings.Join(c16Params[:p], ", ") + `) { ` + body.String() + ` return "none" } %><%= f(` + strings.Join(as, ", ") + `) %>`
+				cases = append(cases, struct{ name, src, want string }{"nil-argument binding", src, want})
+				return
+			}
+			for _, a := range nilArgs {
+				rec(append(cur[:len(cur):len(cur)], a))
+			}
+		}
+		rec(nil)
 	}
 	for _, c := range cases {
 		c := c
